@@ -384,7 +384,7 @@ def check_robust_bytes(tier, seed, sh):
     r = rng(seed)
     encs = ["utf8", "ascii"]
     maxlen = 2 if quick else 3
-    nsample = 800
+    nsample = 500
     chk = SigCheck("C15/robust-bytes", "fresh focused TermCanvas x context prefix (ground, inside CSI, inside OSC) x every byte string over 24 representative bytes x {whole, byte-wise feeds, resize to each other size before byte k for every k} x encodings, then a probe tail (CAN, CPR+DSR query, scroll through, reverse index, tab): no exception, GI after every step, well-formed replies", not quick, f"24-byte alphabet, strings of length <= {maxlen}" + (f" + {nsample} sampled strings of length 3 with one sampled variant each" if quick else "") + f", sizes {SIZES}, encodings {encs}" + (" (ascii only from the ground context in the quick tier)" if quick else ""))
     strings = [(bytes(t), None) for L in range(maxlen + 1) for t in itertools.product(ALPHABET, repeat=L)]
     if quick:
@@ -446,6 +446,8 @@ def check_robust_csi(tier, seed, sh):
                         continue
                     for q in (b"", b"?"):
                         for p in plists:
+                            if quick and q and ";" in p:
+                                continue
                             seq = ESC + b"[" + q + p.encode() + final
                             ops = ([("feed", ctx)] if ctx else []) + [("feed", seq), ("resize", *other), ("tail",)]
                             _eval_history(chk, (enc, size, ctx, seq), enc, size, True, ops)
@@ -669,12 +671,13 @@ def families(tier):
     region = [("STBM(2,3)", csi("2;3r")), ("STBM()", csi("r")), ("STBM(1,2)", csi("1;2r")), ("STBM(3,3)", csi("3;3r")), ("STBM(3,2)", csi("3;2r")), ("STBM(2,)", csi("2r")), ("CUP()", csi("H")), ("CUP(2,1)", csi("2;1H")), ("CUP(3,9)", csi("3;9H")), ("CUP(9,1)", csi("9;1H")), ("CUP(9,9)", csi("9;9H")), ("LF", b"\n"), ("RI", ESC + b"M"), ("IND", ESC + b"D"), ("NEL", ESC + b"E"), ("x", b"x"), ("IL", csi("L")), ("DL", csi("M")), ("CUU(9)", csi("9A")), ("CUD(9)", csi("9B"))]
     sgr = [("SGR31", csi("31m")), ("SGR42", csi("42m")), ("SGR39", csi("39m")), ("SGR49", csi("49m")), ("SGR0", csi("0m")), ("SGR()", csi("m")), ("SGR91", csi("91m")), ("SGR104", csi("104m")), ("SGR38;5;200", csi("38;5;200m")), ("SGR48;5;1", csi("48;5;1m")), ("SGR31;42", csi("31;42m")), ("SGR0;34", csi("0;34m")), ("SGR38;2;1;2;3", csi("38;2;1;2;3m")), ("x", b"x"), ("EL2", csi("2K")), ("LF", b"\n")]
     return {
-        # name: (tokens, [(size, filled?, maxlen)...])
-        "text": (text, [((1, 1), False, 5 if q else 6), ((2, 3), False, 6 if q else 7), ((5, 4), False, 5 if q else 7), ((10, 2), False, 5 if q else 6)]),
+        # name: (tokens, [(size, filled?, maxlen[, first-token prefix required at length maxlen])...])
+        "text": (text, [((1, 1), False, 5 if q else 6), ((2, 3), False, 5 if q else 7), ((5, 4), False, 5 if q else 7), ((10, 2), False, 5 if q else 6)]),
         "cursor": (cursor, [((2, 3), False, 4), ((5, 4), False, 3 if q else 4), ((1, 1), False, 3 if q else 4)]),
         "erase": (erase, [((2, 3), True, 3 if q else 4), ((5, 4), True, 3 if q else 4)]),
         "insdel": (insdel, [((2, 3), True, 3 if q else 4), ((5, 4), True, 3 if q else 4)]),
-        "region": (region, [((5, 4), True, 4), ((2, 3), True, 3 if q else 4)]),
+        # quick: length-4 sequences only when they start by setting a region (the interesting ones)
+        "region": (region, [((5, 4), True, 4, "STBM" if q else None), ((2, 3), True, 3 if q else 4)]),
         "sgr": (sgr, [((3, 2), False, 3 if q else 4)]),
     }
 
@@ -699,15 +702,19 @@ def _canvas_cursor_case(cc, key, names, detail):
 
 def check_faithful_family(tier, seed, sh, name):
     tokens, scopes = families(tier)[name]
-    chk = SigCheck(f"C15/faithful-{name}", f"every sequence of tokens {[t[0] for t in tokens]} up to the length bound, fed to a fresh focused TermCanvas (after a screen-filling setup where noted) and to the reference VT100: equal characters, colours (erased blanks: background only), no stray charset/style, equal cursor and replies; sequences extending a diverged or ambiguous one are pruned", True, "; ".join(f"{s[0]}x{s[1]}{' filled' if f else ''} len<={L}" for s, f, L in scopes))
+    chk = SigCheck(f"C15/faithful-{name}", f"every sequence of tokens {[t[0] for t in tokens]} up to the length bound, fed to a fresh focused TermCanvas (after a screen-filling setup where noted) and to the reference VT100: equal characters, colours (erased blanks: background only), no stray charset/style, equal cursor and replies; sequences extending a diverged or ambiguous one are pruned", True, "; ".join(f"{sc[0][0]}x{sc[0][1]}{' filled' if sc[1] else ''} len<={sc[2]}" + (f" (len {sc[2]} only after a {sc[3]} token)" if len(sc) > 3 and sc[3] else "") for sc in scopes))
     cc = _canvas_cursor_check()
-    for size, filled, maxlen in scopes:
+    for scope in scopes:
+        size, filled, maxlen = scope[:3]
+        deep = scope[3] if len(scope) > 3 else None
         setup = fill_setup(*size) if filled else b""
         for first in range(len(tokens)):
             if not sh.mine():
                 continue
             bad = set()
             for L in range(1, maxlen + 1):
+                if L == maxlen and deep and not tokens[first][0].startswith(deep):
+                    continue
                 for rest in itertools.product(range(len(tokens)), repeat=L - 1):
                     seq = (first, *rest)
                     if any(seq[:k] in bad for k in range(1, L)):
@@ -872,7 +879,7 @@ def scrollback_case(size, toks):
 
 def check_scrollback(tier, seed, sh):
     q = tier == "quick"
-    scopes = [((2, 3), 4 if q else 5), ((3, 2), 4 if q else 5)]
+    scopes = [((2, 3), 4 if q else 5), ((3, 2), 3 if q else 5)]
     bound = "; ".join(f"{s[0]}x{s[1]} len<={L}" for s, L in scopes)
     kept = SigCheck("C15/scrollback-kept", "every token sequence (unique text, over-long text that autowraps, CRLF, LF, IND, NEL, RI, CUP, DECSTBM) up to the bound: scrollback_buffer equals, in order, the rows the reference scrolled off through the top row (when a region starting at row 2 was used: contains them in order); then shrinking the height by one moves the top row to the end of the scrollback and growing returns it; sequences whose screen already diverges from the reference are skipped (reported by faithful-*); nontrivial = at least one row scrolled off", True, bound)
     view = SigCheck("C15/scrollback-view", "same histories: for every k in 0..len(scrollback)+1, scroll_buffer(up, k) then content() shows rows [-(h+k):-k] of scrollback+screen, exactly h rows, without raising; canvas cursor None or inside", True, bound)
